@@ -165,7 +165,7 @@ func roundHalfAway(v float64) float64 {
 	return float64(int64(v + 0.5))
 }
 
-func (m *engine64) apply(op int) c12Obs {
+func (m *engine64) apply(op int) (obs c12Obs) {
 	nAddOps := 5
 	if op < nAddOps {
 		var ps Paths
@@ -206,7 +206,7 @@ func (m *engine64) apply(op int) c12Obs {
 	x /= 3
 	form := x % 3
 	cfg := m.cfgs[x/3]
-	obs := c12Obs{isExec: true}
+	obs = c12Obs{isExec: true}
 	if m.isD {
 		e := m.e.(interface {
 			Execute(clipper.ClipType, clipper.FillRule, *clipper.PathsD) bool
@@ -255,7 +255,15 @@ func (m *engine64) apply(op int) c12Obs {
 	case 0:
 		cl, op2 = new(Paths), new(Paths)
 	case 1:
-		j1, j2 := enum.ClonePaths(c12Junk), enum.ClonePaths(c12Junk[:1])
+		// junk with spare capacity (16 points each): room for a whole new path, should the engine recycle the buffers
+		roomy := func(ps Paths) Paths {
+			out := make(Paths, len(ps))
+			for i, p := range ps {
+				out[i] = append(make(Path, 0, 16), p...)
+			}
+			return out
+		}
+		j1, j2 := roomy(c12Junk), roomy(c12Junk[:1])
 		cl, op2 = &j1, &j2
 	default:
 		if m.prev == nil {
@@ -263,6 +271,23 @@ func (m *engine64) apply(op int) c12Obs {
 		}
 		cl, op2 = m.prev, m.prevOpen
 	}
+	// the caller still holds the paths the solution arguments contain on entry (junk: think of a shallow copy of its
+	// input paths; previous call: the answer it was given before): replacing the solution must not write into them
+	var held, heldSnap Paths
+	for _, s := range []*Paths{cl, op2} {
+		for _, p := range *s {
+			held = append(held, p[:cap(p)])
+			heldSnap = append(heldSnap, enum.ClonePath(p[:cap(p)]))
+		}
+	}
+	defer func() {
+		for i := range held {
+			if !enum.EqualPath(held[i], heldSnap[i]) {
+				obs.note = fmt.Sprintf("a path the solution argument held on entry (still owned by the caller) was overwritten in place: %v became %v", heldSnap[i], held[i])
+				return
+			}
+		}
+	}()
 	switch form {
 	case c12FormExecute:
 		obs.ok = e.Execute(cfg.ct, cfg.fr, cl)
@@ -508,6 +533,9 @@ func (md *c12Model) run(hist []int, op int) (c12Obs, c12Machine, string) {
 
 // compare returns "" when got is an acceptable answer given the reference.
 func (md *c12Model) compare(got, ref c12Obs, reg *oracle.Region) (string, bool) {
+	if got.note != "" {
+		return got.note, false
+	}
 	if got.ok != ref.ok {
 		return fmt.Sprintf("returned %v, a fresh engine returns %v", got.ok, ref.ok), false
 	}
